@@ -196,6 +196,7 @@ def mem_job(job):
                 stream.read()
                 stream.seek(-10, 1)
                 stream.read(5)
+        cont.clean_storage()  # no loose copy left: the seeking read has to re-loosen the object
         out['seek_read_packedz'] = _measure(lambda: seeking(key))
         cont.clean_storage()
         out['repack_no'] = _measure(lambda: cont.repack(compress_mode=CompressMode.NO))
